@@ -161,6 +161,9 @@ def correspond(seed, tier):
         except ZeroDivisionError:
             expect[f"rb{i}"] = None
         lines.append(proto.request(f"rb{i}", "Model.rebin", {}, [x, y, c["xmin"], c["xdiv"], c["xmax"]]))
+        if "GenStog.rebin" in proto.gen_entries():
+            lines.append(proto.request(f"grb{i}", "GenStog.rebin", {}, [x, y, c["xmin"], c["xdiv"], c["xmax"]]))
+            expect[f"grb{i}"] = expect[f"rb{i}"]
     res = proto.run_model(lines)
     dis, worst, empty = [], 0.0, 0
     for rid, exp in expect.items():
@@ -181,4 +184,4 @@ def correspond(seed, tier):
                 break
     return dict(evaluations=len(expect), disagreements=dis, worst_ratio=worst, distribution={"empty_bin_cases": empty}, samples=[], cases={})
 
-DRIVERS = ["drvp"]
+DRIVERS = ["drvp"]   # plus drvs (generated code), built by the check when Pre_Proc.rebin translates
